@@ -292,6 +292,9 @@ class Session:
         if task == "v2_user_intent":
             return "user expressed greeting" if route == "predef" else "user asked something else"
         if task == "v2_flow_continuation":
+            if route == "known":
+                # (opt-in route, used by C11 only) the LLM names a bot intent for which the configuration defines a flow
+                return f'bot express greeting\nbot action: bot say "{self.message_text(turn, k, body)}"'
             return f'bot provide answer\nbot action: bot say "{self.message_text(turn, k, body)}"'
         if task == "generate_bot_message":
             return f'  "{self.message_text(turn, k, body)}"'
